@@ -31,6 +31,8 @@ func main() {
 		os.Exit(cmdCheck(os.Args[2:]))
 	case "replay":
 		os.Exit(cmdReplay(os.Args[2:]))
+	case "dump":
+		cmdDump(os.Args[2:])
 	case "selftest":
 		os.Exit(cmdSelftest(os.Args[2:]))
 	default:
